@@ -1639,3 +1639,63 @@ Proof.
   intros NS NB. unfold monitor, run. simpl. apply mon_from_sound; [exact rel_init | exact NS|].
   rewrite events_is in NB. exact NB.
 Qed.
+
+(* ------------------------------------------------------------------ many actors, one dispatcher *)
+Lemma irun_app x l1 l2 : irun (irun x l1) l2 = irun x (l1 ++ l2).
+Proof. unfold irun. rewrite fold_left_app. reflexivity. Qed.
+
+Lemma ist_eta x : mkI (sh x) (pcs x) = x.
+Proof. destruct x. reflexivity. Qed.
+
+Lemma dstep_proj y a : exists l, di (dstep y a) = irun (di y) l.
+Proof.
+  destruct a as [a m|a|i|o]; unfold dstep.
+  - exists []. destruct (znth (boxes y) a); reflexivity.
+  - destruct (znth (boxes y) a) as [b|]; [|exists []; reflexivity].
+    destruct (bst b); try (exists []; reflexivity).
+    destruct (plain_step (sh (di y)) (OSend disp_chan a)) as [s1 e] eqn:E.
+    destruct e as [| | |[|]| | | | | | | |]; try (exists []; reflexivity).
+    exists [AProd (OSend disp_chan a)]. cbn [di irun fold_left istep pstep]. rewrite E. reflexivity.
+  - exists [ACons 0 i]. cbn [irun fold_left].
+    destruct (nth_error (pcs (di y)) 0) as [p0|]; [|reflexivity].
+    destruct (nth_error (pcs (istep (di y) (ACons 0 i))) 0) as [p1|] eqn:E1.
+    + destruct p0 as [|lc|k c v ok|k|]; try reflexivity.
+      * destruct p1 as [|lc1|k c v ok|k|]; try reflexivity. destruct ok; [|reflexivity].
+        destruct (if c =? disp_chan then znth (boxes y) v else None); reflexivity.
+      * destruct ok; [|reflexivity]. destruct p1; try reflexivity.
+        destruct (if c =? disp_chan then znth (boxes y) v else None); reflexivity.
+    + destruct p0 as [|lc|k c v ok|k|]; try reflexivity. destruct ok; reflexivity.
+  - assert (exists l, istep (di y) (AProd o) = irun (di y) l) as G by (exists [AProd o]; reflexivity).
+    destruct o as [cap| |c|c v|c|k|seed cfg]; cbn [di]; try exact G;
+      (destruct (c =? disp_chan); [exists []; reflexivity | exact G]).
+Qed.
+
+Lemma drun_proj acts : forall y, exists l, di (drun y acts) = irun (di y) l.
+Proof.
+  induction acts as [|a r IH]; intro y; simpl.
+  - exists []. reflexivity.
+  - destruct (IH (dstep y a)) as [l2 E2]. destruct (dstep_proj y a) as [l1 E1].
+    exists (l1 ++ l2). unfold drun in *. rewrite E2, E1. apply irun_app.
+Qed.
+
+Lemma dinit_reach n : di (dinit n) = irun (init_i 1) (map AProd service_ops).
+Proof. vm_compute. reflexivity. Qed.
+
+Lemma dispatcher_one_at_a_time n acts :
+  let x := di (drun (dinit n) acts) in
+  (running x <= 1)%nat /\
+  (forall j k c v ok, nth_error (pcs x) j = Some (PRun k c v ok) ->
+      j = 0%nat /\ chan_of (sh x) k = Some c) /\
+  ~ In PPanic (pcs x).
+Proof.
+  destruct (drun_proj acts (dinit n)) as [l E]. rewrite dinit_reach, irun_app in E.
+  intro x. unfold x. rewrite E. apply one_at_a_time.
+Qed.
+
+Lemma blocked_schedule_is_noop y a :
+  snd (plain_step (sh (di y)) (OSend disp_chan a)) = EFull -> dstep y (DSched a) = y.
+Proof.
+  intro H. unfold dstep. destruct (znth (boxes y) a) as [b|]; [|reflexivity].
+  destruct (bst b); try reflexivity.
+  destruct (plain_step (sh (di y)) (OSend disp_chan a)) as [s1 e]. simpl in H. subst e. reflexivity.
+Qed.
